@@ -16,6 +16,7 @@ import PybtexModel.Props.C12
 
 namespace Pybtex.Props
 open Pybtex Pybtex.Interp Pybtex.BstSem
+open Pybtex.Bst (Command Program)
 
 /-- an ill-typed operand `v` (hypothesis `hv : isX v = …`): the call is a Python `TypeError` -/
 local macro "ill1" : tactic => `(tactic| (intro v hv; cases v <;> first | exact ⟨_, rfl⟩ | cases hv))
@@ -700,5 +701,532 @@ theorem C03_while_unfold (p f : Val) :
     (∀ n (s : St), runBuiltin (n+1) .while_ { s with stack := [] } = emptyStack ∧
             runBuiltin (n+1) .while_ { s with stack := [f] } = emptyStack) :=
   ⟨fun _ _ _ => rfl, fun _ _ => rfl, evalBuiltin_while p f, evalWhile_unfold p f, fun _ _ => ⟨rfl, rfl⟩⟩
+
+/-! ## 3. Literals, variables, `ITERATE` and `REVERSE` -/
+
+/-- the elements of a function body: an integer / string literal pushes itself, `{ … }` pushes
+the function, `'name` pushes (a reference to) the variable object — `BibTeXError` if the name is
+undefined —, a name is executed — `BibTeXError` if undefined -/
+theorem C03_exec_literals (f : Nat) (s : St) :
+    (∀ n, execTok (f+1) (.int n) s = .ok { s with stack := .int n :: s.stack }) ∧
+    (∀ x, execTok (f+1) (.str x) s = .ok { s with stack := .str x :: s.stack }) ∧
+    (∀ b, execTok (f+1) (.fn b) s = .ok { s with stack := .fn b :: s.stack }) ∧
+    (∀ n, s.vars.contains n = true → execTok (f+1) (.quoted n) s = .ok { s with stack := .ref n :: s.stack }) ∧
+    (∀ n, s.vars.contains n = false → execTok (f+1) (.quoted n) s = .error (.bibtex "can not push undefined variable")) ∧
+    (∀ n o, s.vars.getItem n = some o → execTok (f+1) (.name n) s = execObj f o s) ∧
+    (∀ n, s.vars.getItem n = none → execTok (f+1) (.name n) s = .error (.bibtex "can not execute undefined function")) ∧
+    (∀ t ts, execBody (f+1) (t :: ts) s =
+      match execTok f t s with | .error e => .error e | .ok s1 => execBody f ts s1) ∧
+    execBody (f+1) [] s = .ok s := by
+  refine ⟨fun _ => rfl, fun _ => rfl, fun _ => rfl, ?_, ?_, ?_, ?_, fun _ _ => rfl, rfl⟩
+  · intro n h; simp only [execTok, h, if_true, push]
+  · intro n h; simp only [execTok, h, Bool.false_eq_true, if_false]
+  · intro n o h; simp only [execTok, h]
+  · intro n h; simp only [execTok, h]
+
+/-- executing a name: a global variable pushes its value; an entry variable pushes the value in
+the frame of the current entry, `0` / `""` if it was never assigned there; a field pushes the
+field value (C14) or a missing-field value; a function executes its body; a built-in runs -/
+theorem C03_exec_variable (f : Nat) (s : St) :
+    (∀ n, execObj (f+1) (.gint n) s = .ok { s with stack := .int n :: s.stack }) ∧
+    (∀ v, execObj (f+1) (.gstr v) s = .ok { s with stack := v :: s.stack }) ∧
+    (∀ k n v, s.cur = some k → dget (frameOf s k) n = some v →
+      execObj (f+1) (.eint n) s = .ok { s with stack := v :: s.stack } ∧
+      execObj (f+1) (.estr n) s = .ok { s with stack := v :: s.stack }) ∧
+    (∀ k n, s.cur = some k → dget (frameOf s k) n = none →
+      execObj (f+1) (.eint n) s = .ok { s with stack := .int 0 :: s.stack } ∧
+      execObj (f+1) (.estr n) s = .ok { s with stack := .str [] :: s.stack }) ∧
+    (∀ k e db n, s.cur = some k → s.db = some db → db.entries.getItem k = some e →
+      execObj (f+1) (.field n) s = .ok { s with stack :=
+        (match bstFieldValue db e n with | .str v => Val.str v | .missing m => Val.missing m) :: s.stack }) ∧
+    (∀ b, execObj (f+1) (.func b) s = execBody f b s) ∧
+    (∀ b, execObj (f+1) (.builtin b) s = runBuiltin f b s) := by
+  refine ⟨fun _ => rfl, fun _ => rfl, ?_, ?_, ?_, fun _ => rfl, fun _ => rfl⟩
+  · intro k n v hk hv; constructor <;> simp only [execObj, hk, hv, push]
+  · intro k n hk hv; constructor <;> simp only [execObj, hk, hv, push]
+  · intro k e db n hk hdb he; simp only [execObj, curEntry, hk, hdb, he, push]; rfl
+
+/-- `ITERATE {f}` is the left fold of "make the entry current; execute `f`" over the citation
+list in order (stopping at the first error); `f` is looked up once, before the first entry.
+`Ready s`: the database has been read and holds the cited entries (`C03_ready`). -/
+theorem C03_iterate_order (fuel : Nat) (inp : Input) (c : Command) (s : St) (t : BTok) (ts : List BTok)
+    (f : Str) (o : VarObj) (hc : upper c.name = "ITERATE".toList) (hg : c.groups = [t :: ts])
+    (ht : tokName t = .ok f) (ho : s.vars.getItem f = some o) (hr : Ready s) :
+    runCommand fuel inp c s = foldEntries (execObj fuel o) s.citations s := by
+  obtain ⟨db, hdb, hk⟩ := hr
+  rw [runCommand_iterate fuel inp c s t ts f o hc hg ht ho]
+  exact iterate_eq_fold fuel o db s.citations s hdb hk
+
+/-- `REVERSE {f}`: the same fold over the reversed citation list -/
+theorem C03_reverse_order (fuel : Nat) (inp : Input) (c : Command) (s : St) (t : BTok) (ts : List BTok)
+    (f : Str) (o : VarObj) (hc : upper c.name = "REVERSE".toList) (hg : c.groups = [t :: ts])
+    (ht : tokName t = .ok f) (ho : s.vars.getItem f = some o) (hr : Ready s) :
+    runCommand fuel inp c s = foldEntries (execObj fuel o) s.citations.reverse s := by
+  obtain ⟨db, hdb, hk⟩ := hr
+  rw [runCommand_reverse fuel inp c s t ts f o hc hg ht ho]
+  exact iterate_eq_fold fuel o db s.citations.reverse s hdb (fun k hk' => hk k (List.mem_reverse.1 hk'))
+
+/-- `READ` establishes `Ready` (database present, every citation in it: missing ones are
+reported and dropped), every command preserves it, and `READ` touches neither variables nor
+entry variables nor the output. -/
+theorem C03_ready (fuel : Nat) (inp : Input) (c : Command) (s s' : St) (h : runCommand fuel inp c s = .ok s') :
+    (upper c.name = "READ".toList → Ready s' ∧ s'.vars = s.vars ∧ s'.macros = s.macros ∧
+        s'.entryVars = s.entryVars ∧ s'.stack = s.stack ∧ s'.lines = s.lines ∧ s'.buffer = s.buffer) ∧
+    (Ready s → Ready s') := by
+  refine ⟨fun hc => ?_, fun hr => ready_preserved fuel inp c s s' hr h⟩
+  obtain ⟨a, b, c', d, e, f', g, _⟩ := runCommand_read fuel inp c s s' hc h
+  exact ⟨a, b, c', d, e, f', g⟩
+
+/-- `EXECUTE {f}` executes `f` once, outside any entry -/
+theorem C03_execute (fuel : Nat) (inp : Input) (c : Command) (s : St) (t : BTok) (ts : List BTok)
+    (hc : upper c.name = "EXECUTE".toList) (hg : c.groups = [t :: ts]) :
+    runCommand fuel inp c s = execTok fuel t s :=
+  runCommand_execute fuel inp c s t ts hc hg
+
+/-! ## 4. `SORT` -/
+
+/-- `<` / `>` / `SORT` compare strings by code-point lexicographic order, a strict total order -/
+theorem C03_strLt_spec (a b c : Str) :
+    (strLt a b = true ↔ LexLt a b) ∧ ¬ LexLt a a ∧ (LexLt a b → LexLt b c → LexLt a c) ∧
+    (LexLt a b ∨ a = b ∨ LexLt b a) := by
+  simp only [← strLt_iff_lexLt]
+  refine ⟨trivial, by rw [strLt_irrefl]; exact Bool.false_ne_true, strLt_trans, strLt_total a b⟩
+
+/-- After `SORT` the citation list is a permutation of the old one, non-decreasing in the
+entries' `sort.key$` (code-point lexicographic order; a never-assigned key counts as the empty
+string), and entries with equal keys keep their relative order (stable); nothing else changes.
+`SORT` succeeds whenever no `sort.key$` holds a non-string (which `:=` never stores). -/
+theorem C03_sort (fuel : Nat) (inp : Input) (c : Command) (s : St) (hc : upper c.name = "SORT".toList) :
+    (∀ s', runCommand fuel inp c s = .ok s' →
+      s' = { s with citations := s'.citations } ∧
+      s'.citations.Perm s.citations ∧
+      SortedBy (sortKey s) s'.citations ∧
+      StableWrt (sortKey s) s.citations s'.citations) ∧
+    ((∀ k ∈ s.citations, ∀ v, dget (frameOf s k) "sort.key$".toList = some v → isStr v = true) →
+      ∃ s', runCommand fuel inp c s = .ok s') := by
+  rw [runCommand_sort fuel inp c s hc]
+  constructor
+  · intro s' h
+    split at h
+    · cases h
+    · rename_i l hl
+      cases h
+      obtain ⟨h1, h2, h3⟩ := sort_spec s l hl
+      exact ⟨rfl, h1, h2, h3⟩
+  · intro h
+    obtain ⟨l, hl⟩ := mapM_sortPair_isSome s s.citations h
+    rw [hl]; exact ⟨_, rfl⟩
+
+/-- sortedness + stability determine the result: any two lists that are sorted and stable with
+respect to the same list are equal (so `C03_sort` pins the citation list after `SORT`) -/
+theorem C03_sort_unique (key : Str → Str) (l l1 l2 : List Str)
+    (h1 : SortedBy key l1) (h2 : SortedBy key l2) (s1 : StableWrt key l l1) (s2 : StableWrt key l l2) : l1 = l2 :=
+  sorted_stable_unique key l1 l2 h1 h2 (fun k => (s1 k).trans (s2 k).symm)
+
+/-! ## 5. Scoping, declarations, output -/
+
+/-- **Scoping.**  Whatever code is executed (function values, variables, bodies, `while$` loops,
+built-ins — all six mutually recursive functions of the interpreter), from `s` to `s'`:
+`Frame s s'` — the current entry, database, citation list, macros and preamble are untouched;
+the entry variables of every entry other than the current one are untouched; every name keeps
+its object in the variable table except that the value of a global integer / string variable
+may change (global variables persist; functions, fields and built-ins are never redefined);
+output happens only through write/newline events; reports and print-outs are only appended. -/
+theorem C03_scoping (n : Nat) :
+    (∀ v s s', execVal n v s = .ok s' → Frame s s') ∧
+    (∀ o s s', execObj n o s = .ok s' → Frame s s') ∧
+    (∀ t s s', execTok n t s = .ok s' → Frame s s') ∧
+    (∀ b s s', execBody n b s = .ok s' → Frame s s') ∧
+    (∀ p f s s', whileLoop n p f s = .ok s' → Frame s s') ∧
+    (∀ b s s', runBuiltin n b s = .ok s' → Frame s s') :=
+  exec_frame n
+
+/-- the entry-variable store: an assignment for entry `k` is read back for `k`, and changes
+neither another variable of `k` nor any variable of another entry -/
+theorem C03_scoping_entry_store (s : St) (k n : Str) (v : Val) :
+    dget (frameOf (setEntryVar s k n v) k) n = some v ∧
+    (∀ n', n' ≠ n → dget (frameOf (setEntryVar s k n v) k) n' = dget (frameOf s k) n') ∧
+    (∀ k', k' ≠ k → frameOf (setEntryVar s k n v) k' = frameOf s k') ∧
+    setEntryVar s k n v = { s with entryVars := (setEntryVar s k n v).entryVars } := by
+  refine ⟨?_, ?_, ?_, rfl⟩
+  · show dget (match dget (dset s.entryVars k _) k with | some f => f | none => []) n = _
+    rw [dget_dset_same]; exact dget_dset_same _ _ _
+  · intro n' hn
+    show dget (match dget (dset s.entryVars k _) k with | some f => f | none => []) n' = _
+    rw [dget_dset_same]; exact dget_dset_ne _ _ _ _ hn
+  · intro k' hk
+    show (match dget (dset s.entryVars k _) k' with | some f => f | none => []) = _
+    rw [dget_dset_ne _ _ _ _ hk]; rfl
+
+/-- a whole `ITERATE` / `REVERSE` round: the database, citation list, macros and preamble are
+untouched, variables persist, and the entry variables of entries that are not in the list are
+untouched -/
+theorem C03_scoping_iterate (fuel : Nat) (o : VarObj) (ks : List Str) (s s' : St) (h : iterate fuel o ks s = .ok s') :
+    s'.db = s.db ∧ s'.citations = s.citations ∧ s'.macros = s.macros ∧ s'.preamble = s.preamble ∧
+    VarsPersist s.vars s'.vars ∧ (∀ k, k ∉ ks → dget s'.entryVars k = dget s.entryVars k) := by
+  obtain ⟨a1, a2, a3, a4, a5, a6, _⟩ := iterate_frame fuel o ks s s' h
+  exact ⟨a1, a2, a3, a4, a5, a6⟩
+
+/-- every command: output only through write/newline events, reports and print-outs only
+appended, and — for every command but `READ` — the database is kept and the citation list is
+kept up to order; the variable table is changed by the declaring commands only (and, in the
+values of global variables, by executed code: `C03_scoping`) -/
+theorem C03_scoping_commands (fuel : Nat) (inp : Input) (c : Command) (s s' : St) (h : runCommand fuel inp c s = .ok s') :
+    CmdFrame c s s' ∧
+    (upper c.name = "SORT".toList ∨ upper c.name = "READ".toList ∨ upper c.name = "MACRO".toList → s'.vars = s.vars) ∧
+    (upper c.name = "ITERATE".toList ∨ upper c.name = "REVERSE".toList ∨ upper c.name = "EXECUTE".toList →
+      VarsPersist s.vars s'.vars) := by
+  refine ⟨runCommand_frame fuel inp c s s' h, ?_, ?_⟩
+  · exact runCommand_vars_same fuel inp c s s' h
+  · exact runCommand_vars_persist fuel inp c s s' h
+
+/-- `ENTRY {fields} {ints} {strings}` declares exactly: each field name as a field, `crossref`,
+each integer name as an entry integer variable, each string name as an entry string variable —
+every other name is bound as before, nothing else changes — provided none of these names is
+declared yet and no two are equal up to case; otherwise it is a `BibTeXError`. -/
+theorem C03_declare_entry (fuel : Nat) (inp : Input) (c : Command) (s : St) (fields ints strings : List Str)
+    (hc : upper c.name = "ENTRY".toList)
+    (hg : c.groups = [fields.map .name, ints.map .name, strings.map .name]) :
+    (Fresh (fields ++ ["crossref".toList] ++ ints ++ strings) s →
+      ∃ s', runCommand fuel inp c s = .ok s' ∧ Declares (entryDecls fields ints strings) s s') ∧
+    (¬ Fresh (fields ++ ["crossref".toList] ++ ints ++ strings) s →
+      runCommand fuel inp c s = .error (.bibtex "variable already declared")) := by
+  rw [runCommand_entry fuel inp c s _ _ _ hc hg]
+  have h := declStep_entry fields ints strings s
+  have e : (entryDecls fields ints strings).map (·.1) = fields ++ ["crossref".toList] ++ ints ++ strings := by
+    simp [entryDecls, List.map_append, List.map_map, Function.comp_def]
+  rw [e] at h
+  exact ⟨fun hf => let ⟨s', h1, h2, _⟩ := h.1 hf; ⟨s', h1, h2⟩, h.2⟩
+
+/-- `FUNCTION {name} {body}` binds `name` to the function; re-declaring any name (a built-in, a
+field, a variable, another function) is a `BibTeXError` -/
+theorem C03_declare_function (fuel : Nat) (inp : Input) (c : Command) (s : St) (n : Str) (ts body : List BTok)
+    (hc : upper c.name = "FUNCTION".toList) (hg : c.groups = [.name n :: ts, body]) :
+    (s.vars.contains n = false →
+      runCommand fuel inp c s = .ok { s with vars := s.vars.setItem n (.func body) } ∧
+      Declares [(n, .func body)] s { s with vars := s.vars.setItem n (.func body) }) ∧
+    (s.vars.contains n = true → runCommand fuel inp c s = .error (.bibtex "variable already declared")) := by
+  rw [runCommand_function fuel inp c s n ts body hc hg]
+  exact ⟨fun h => ⟨addVariable_ok s n _ h, declares_add s n _⟩, fun h => addVariable_dup s n _ h⟩
+
+/-- `INTEGERS {names}` / `STRINGS {names}` bind each name to a fresh global variable with value
+`0` / `""` — also a name that is already declared (the pinned code overwrites) -/
+theorem C03_declare_globals (fuel : Nat) (inp : Input) (c : Command) (s : St) (ns : List Str)
+    (hg : c.groups = [ns.map .name]) :
+    (upper c.name = "INTEGERS".toList →
+      ∃ s', runCommand fuel inp c s = .ok s' ∧ Declares (ns.map fun n => (n, .gint 0)) s s') ∧
+    (upper c.name = "STRINGS".toList →
+      ∃ s', runCommand fuel inp c s = .ok s' ∧ Declares (ns.map fun n => (n, .gstr (.str []))) s s') := by
+  constructor
+  · intro hc; rw [runCommand_integers fuel inp c s _ hc hg]; exact overwrite_spec _ ns s
+  · intro hc; rw [runCommand_strings fuel inp c s _ hc hg]; exact overwrite_spec _ ns s
+
+/-- `MACRO {name} {"text"}` defines the macro for the `.bib` reader (last definition wins) and
+changes nothing else -/
+theorem C03_declare_macro (fuel : Nat) (inp : Input) (c : Command) (s : St) (n v : BTok) (ns vs : List BTok)
+    (name value : Str) (hc : upper c.name = "MACRO".toList) (hg : c.groups = [n :: ns, v :: vs])
+    (hn : tokName n = .ok name) (hv : tokName v = .ok value) :
+    runCommand fuel inp c s = .ok { s with macros := dset s.macros name value } ∧
+    dget (dset s.macros name value) name = some value ∧
+    (∀ m, m ≠ name → dget (dset s.macros name value) m = dget s.macros m) :=
+  ⟨runCommand_macro fuel inp c s n v ns vs name value hc hg hn hv, dget_dset_same _ _ _,
+   fun _ hm => dget_dset_ne _ _ _ _ hm⟩
+
+/-- **Output.**  The `.bbl` text returned by `run` is the concatenation of the emitted lines;
+the lines and the buffer evolve only through output events (`write$` appends to the buffer,
+`newline$` emits the wrapped buffer and a line feed: `C03_builtin_write`, `C03_builtin_newline`),
+so the text is `render [] evs` for the sequence `evs` of output events of the run: each
+`newline$` contributes `wrap(text written since the previous newline$) ++ "\n"`, and what is
+written after the last `newline$` is discarded. -/
+theorem C03_output (fuel : Nat) (prog : Program) (inp : Input) (out : Output) (h : run fuel prog inp = .ok out) :
+    ∃ s evs, runProgram fuel inp prog { vars := initVars, citations := inp.citations } = .ok s ∧
+      out.bbl = s.lines.flatten ∧ out.reports = s.reports ∧ out.printed = s.printed ∧
+      (s.lines, s.buffer) = evs.foldl emit ([], []) ∧
+      out.bbl = render [] evs := by
+  unfold run at h
+  split at h
+  · cases h
+  · rename_i s hs
+    cases h
+    obtain ⟨⟨evs, he⟩, _, _⟩ := runProgram_frame fuel inp prog _ s hs
+    refine ⟨s, evs, hs, rfl, rfl, rfl, he, ?_⟩
+    have := render_spec evs [] []
+    rw [← he] at this
+    simpa using this
+
+/-- the event semantics of the output, unfolded: how `render` treats each event, and what a run
+of events does to the emitted lines -/
+theorem C03_output_render (pending x : Str) (evs : List OutEv) (ls buf : List Str) :
+    render pending [] = [] ∧
+    render pending (.write x :: evs) = render (pending ++ x) evs ∧
+    render pending (.newline :: evs) = Wrap.wrapDefault pending ++ '\n' :: render [] evs ∧
+    (evs.foldl emit (ls, buf)).1.flatten = ls.flatten ++ render buf.flatten evs :=
+  ⟨rfl, rfl, rfl, render_spec evs ls buf⟩
+
+/-- only `write$` and `newline$` touch the output: every other built-in that does not execute
+code leaves the emitted lines and the buffer as they are -/
+theorem C03_output_only_write_newline (f : Nat) (b : Builtin) (s s' : St)
+    (hb : b ≠ .callType ∧ b ≠ .if_ ∧ b ≠ .while_ ∧ b ≠ .write ∧ b ≠ .newline)
+    (h : runBuiltin (f+1) b s = .ok s') : s'.lines = s.lines ∧ s'.buffer = s.buffer :=
+  prim_sameOut f b s s' hb h
+
+/-! ## Non-vacuity: concrete instances, by evaluation -/
+
+private def exEntry (k ty title : String) : Pybtex.Entry :=
+  { key := k.toList, type := ty.toList, fields := CIDict.ofPairs [("title".toList, title.toList)], persons := CIDict.empty }
+
+private def exDb : BibData :=
+  { entries := CIDict.ofPairs [("k1".toList, exEntry "k1" "article" "Zeta"), ("k2".toList, exEntry "k2" "book" "Alpha"),
+                               ("k3".toList, exEntry "k3" "misc" "Alpha")],
+    wanted := none, citations := CISet.empty }
+
+/-- the functions of a small style -/
+private def exFuns : List (String × List BTok) :=
+  [("article", [.str "A:".toList, .name "cite$".toList, .name "*".toList, .name "write$".toList, .name "newline$".toList]),
+   ("presort", [.name "title".toList, .quoted "sort.key$".toList, .name ":=".toList]),
+   ("main", [.name "call.type$".toList])]
+
+/-- the declarations of that style as commands -/
+private def exDecls : Program :=
+  [⟨"ENTRY".toList, [[.name "title".toList], [.name "n".toList], [.name "lab".toList]]⟩,
+   ⟨"INTEGERS".toList, [[.name "gi".toList]]⟩,
+   ⟨"strings".toList, [[.name "gs".toList]]⟩] ++
+  exFuns.map fun p => ⟨"FUNCTION".toList, [[.name p.1.toList], p.2]⟩
+
+private def exInp : Input := { bibTexts := [], citations := [] }
+
+/-- The variable table of the examples: what `exDecls` declares, and (to keep kernel evaluation
+cheap) only the built-ins the examples use instead of all of `initVars`; the examples
+`C03_ready_nonvacuous` and `C03_output_nonvacuous` run from the real initial table. -/
+private def exVars : CIDict VarObj :=
+  CIDict.ofPairs (
+    ([("*", .mul), (":=", .assign), (">", .gt), ("-", .minus), ("cite$", .cite), ("write$", .write),
+      ("newline$", .newline), ("call.type$", .callType), ("while$", .while_), ("if$", .if_), ("quote$", .quote)].map
+        fun (p : String × Builtin) => (p.1.toList, VarObj.builtin p.2)) ++
+    [("sort.key$".toList, .estr "sort.key$".toList), ("title".toList, .field "title".toList), ("crossref".toList, .crossref),
+     ("n".toList, .eint "n".toList), ("lab".toList, .estr "lab".toList), ("gi".toList, .gint 0), ("gs".toList, .gstr (.str []))] ++
+    exFuns.map fun p => (p.1.toList, VarObj.func p.2))
+
+private def exSt : St :=
+  { vars := exVars, db := some exDb, citations := ["k1".toList, "k2".toList, "k3".toList], cur := some "k1".toList }
+
+/-- observable summary of a result: the stack (as printed), buffer and emitted lines -/
+private def obs (r : Except IErr St) : Option (List Str × List Str × List Str) :=
+  r.toOption.map fun s => (s.stack.map shown, s.buffer, s.lines)
+
+
+/-- a state without variables, for calling a built-in directly on a stack -/
+private def stk (vs : List Val) : St := { vars := CIDict.empty, stack := vs }
+
+/-- the top of the resulting stack, as printed -/
+private def top1 (r : Except IErr St) : Option Str := r.toOption.bind fun s => s.stack.head?.map shown
+
+private def S (x : String) : Val := .str x.toList
+private def T (x : String) : BTok := .name x.toList
+private def Q (x : String) : BTok := .quoted x.toList
+private def TS (x : String) : BTok := .str x.toList
+private def L (xs : List String) : List Str := xs.map String.toList
+
+theorem C03_builtin_concat_nonvacuous :
+    valToStr (S "ab") = some "ab".toList ∧ valToStr (.missing "note".toList) = some [] ∧
+    top1 (runBuiltin 1 .mul (stk [.missing "note".toList, S "ab"])) = some "ab".toList := by
+  decide +kernel
+
+theorem C03_builtin_gt_lt_str_nonvacuous :
+    top1 (runBuiltin 1 .gt (stk [S "b", S "a"])) = some "0".toList ∧
+    top1 (runBuiltin 1 .lt (stk [S "b", S "a"])) = some "1".toList := by
+  decide +kernel
+
+theorem C03_builtin_assign_global_int_nonvacuous :
+    (match exSt.vars.getItem "gi".toList with | some (.gint 0) => true | _ => false) = true ∧
+    obs (execBody 50 [.int 7, Q "gi", T ":=", T "gi"] exSt) = some (L ["7"], [], []) := by
+  decide +kernel
+
+theorem C03_builtin_assign_global_str_nonvacuous :
+    (match exSt.vars.getItem "GS".toList with | some (.gstr (.str [])) => true | _ => false) = true ∧
+    obs (execBody 50 [TS "v", Q "gs", T ":=", T "gs"] exSt) = some (L ["v"], [], []) := by
+  decide +kernel
+
+/-- `#3 'n := "x" 'lab :=` for entry `k1`: read back for `k1`, invisible for `k2` -/
+theorem C03_builtin_assign_entry_int_nonvacuous :
+    (match exSt.vars.getItem "n".toList with | some (.eint _) => true | _ => false) = true ∧ exSt.cur = some "k1".toList ∧
+    ((execBody 50 [.int 3, Q "n", T ":=", TS "x", Q "lab", T ":="] exSt).toOption.map fun s =>
+      ((dget (frameOf s "k1".toList) "n".toList).map shown, (dget (frameOf s "k1".toList) "lab".toList).map shown,
+       (dget (frameOf s "k2".toList) "n".toList).map shown)) = some (some "3".toList, some "x".toList, none) := by
+  decide +kernel
+
+theorem C03_builtin_assign_entry_str_nonvacuous :
+    (match exSt.vars.getItem "lab".toList with | some (.estr _) => true | _ => false) = true ∧
+    (match exSt.vars.getItem "sort.key$".toList with | some (.estr _) => true | _ => false) = true := by
+  decide +kernel
+
+theorem C03_builtin_empty_nonvacuous :
+    top1 (runBuiltin 1 .empty (stk [S "  "])) = some "1".toList ∧
+    top1 (runBuiltin 1 .empty (stk [S "a"])) = some "0".toList ∧
+    top1 (runBuiltin 1 .empty (stk [.missing "note".toList])) = some "1".toList := by
+  decide +kernel
+
+theorem C03_builtin_write_nonvacuous :
+    (runBuiltin 1 .write { stk [S "cd"] with buffer := L ["ab"] }).toOption.map (·.buffer) = some (L ["ab", "cd"]) := by
+  decide +kernel
+
+theorem C03_builtin_substring_nonvacuous :
+    top1 (runBuiltin 1 .substring (stk [.int 3, .int 2, S "ab{c}d"])) = some "b{c".toList ∧
+    top1 (runBuiltin 1 .substring (stk [.int 2, .int (-1), S "ab{c}d"])) = some "}d".toList := by
+  decide +kernel
+
+theorem C03_builtin_text_length_nonvacuous :
+    top1 (runBuiltin 1 .textLength (stk [S "ab{\\'e}x"])) = some "4".toList := by
+  decide +kernel
+
+theorem C03_builtin_text_prefix_nonvacuous :
+    top1 (runBuiltin 1 .textPrefix (stk [.int 3, S "ab{c}d"])) = some "ab{c}".toList := by
+  decide +kernel
+
+theorem C03_builtin_text_prefix_spec_nonvacuous :
+    bibtexLen "ab{c}d".toList = some 4 ∧
+    top1 (runBuiltin 1 .textPrefix (stk [.int 3, S "ab{c}d"])) = some "ab{c}".toList := by
+  decide +kernel
+
+theorem C03_builtin_purify_width_num_names_nonvacuous :
+    top1 (runBuiltin 1 .purify (stk [S "a{\\'e}-b"])) = some "ae b".toList ∧
+    top1 (runBuiltin 1 .width (stk [S "ab"])) = some "1056".toList ∧
+    top1 (runBuiltin 1 .numNames (stk [S "A and B"])) = some "2".toList := by
+  decide +kernel
+
+theorem C03_builtin_purify_spec_nonvacuous :
+    top1 (runBuiltin 1 .purify (stk [S "a{\\'e}-b"])) = some "ae b".toList := by
+  decide +kernel
+
+theorem C03_builtin_change_case_nonvacuous :
+    caseModeOf (lowerC 'U') = some .u ∧ caseModeOf (lowerC 'q') = none ∧
+    top1 (runBuiltin 1 .changeCase (stk [S "U", S "Ab Cd"])) = some "AB CD".toList := by
+  decide +kernel
+
+theorem C03_builtin_format_name_nonvacuous :
+    top1 (runBuiltin 1 .formatName (stk [S "{ff }{ll}", .int 2, S "Doe, John and Roe, Jane"])) = some "Jane Roe".toList ∧
+    ((runBuiltin 1 .formatName (stk [S "{ff }{ll}", .int 3, S "Doe, John and Roe, Jane"])).toOption.map
+      fun s => (s.stack.map shown, s.reports.length)) = some (L [""], 1) := by
+  decide +kernel
+
+theorem C03_builtin_call_type_nonvacuous :
+    exSt.cur = some "k1".toList ∧ (exDb.entries.getItem "k1".toList).isSome = true ∧
+    obs (runBuiltin 50 .callType exSt) = some ([], [], L ["A:k1", "\n"]) ∧
+    ((runBuiltin 50 .callType { exSt with cur := some "k2".toList }).toOption.map fun s => (s.lines, s.reports.length))
+      = some ([], 1) := by
+  decide +kernel
+
+
+/-- a counter-bounded loop from the initial variable table: three iterations -/
+theorem C03_while_unfold_nonvacuous :
+    obs (execBody 200 [.int 3, Q "gi", T ":=",
+          .fn [T "gi", .int 0, T ">"], .fn [T "gi", .int 1, T "-", Q "gi", T ":=", TS "x", T "write$"], T "while$",
+          T "gi", .int 0, .fn [TS "pos"], .fn [TS "nonpos"], T "if$"] exSt)
+      = some (L ["nonpos", "0"], L ["x", "x", "x"], []) := by
+  decide +kernel
+
+private theorem exSt_ready : Ready exSt := ⟨exDb, rfl, by decide +kernel⟩
+
+/-- `ITERATE {article}` over `k1 k2 k3`, `REVERSE {article}` over `k3 k2 k1` -/
+theorem C03_iterate_order_nonvacuous :
+    Ready exSt ∧ upper "iterate".toList = "ITERATE".toList ∧
+    (match exSt.vars.getItem "article".toList with | some (.func _) => true | _ => false) = true ∧
+    obs (runCommand 100 exInp ⟨"iterate".toList, [[T "article"]]⟩ exSt)
+      = some ([], [], L ["A:k1", "\n", "A:k2", "\n", "A:k3", "\n"]) :=
+  ⟨exSt_ready, by decide +kernel, by decide +kernel, by decide +kernel⟩
+
+theorem C03_reverse_order_nonvacuous :
+    Ready exSt ∧
+    obs (runCommand 100 exInp ⟨"REVERSE".toList, [[T "article"]]⟩ exSt)
+      = some ([], [], L ["A:k3", "\n", "A:k2", "\n", "A:k1", "\n"]) :=
+  ⟨exSt_ready, by decide +kernel⟩
+
+private def exBib : Input := { bibTexts := ["@misc{k1, title = {T}}".toList], citations := ["k1".toList, "nokey".toList] }
+
+/-- a complete small style: declarations, a function for `misc`, `READ`, `ITERATE` -/
+private def exProg : Program :=
+  exDecls ++ [⟨"FUNCTION".toList, [[T "misc"], [T "title", T "write$", T "newline$", TS "lost", T "write$"]]⟩,
+              ⟨"READ".toList, []⟩, ⟨"ITERATE".toList, [[T "main"]]⟩]
+
+/-- `READ` of a one-entry database with citations `k1`, `nokey`: the missing entry is reported
+and dropped -/
+theorem C03_ready_nonvacuous :
+    ((runCommand 10 exBib ⟨"READ".toList, []⟩ { vars := initVars, citations := exBib.citations }).toOption.map fun s =>
+      (s.citations, s.reports.length, s.db.isSome)) = some (L ["k1"], 1, true) := by
+  decide +kernel
+
+theorem C03_execute_nonvacuous :
+    obs (runCommand 100 exInp ⟨"EXECUTE".toList, [[T "quote$"]]⟩ exSt) = some (L ["\""], [], []) := by
+  decide +kernel
+
+/-- `ITERATE {presort}` then `SORT`: keys `Zeta`, `Alpha`, `Alpha` for `k1 k2 k3` give `k2 k3 k1`
+(the two equal keys keep their order) -/
+theorem C03_sort_nonvacuous :
+    ((runProgram 100 exInp [⟨"ITERATE".toList, [[T "presort"]]⟩, ⟨"sort".toList, []⟩] exSt).toOption.map (·.citations))
+      = some (L ["k2", "k3", "k1"]) ∧
+    ((runCommand 100 exInp ⟨"SORT".toList, []⟩ exSt).toOption.map (·.citations)) = some (L ["k1", "k2", "k3"]) := by
+  decide +kernel
+
+theorem C03_sort_unique_nonvacuous :
+    SortedBy id (L ["a", "a", "b"]) ∧ StableWrt id (L ["b", "a", "a"]) (L ["a", "a", "b"]) := by
+  constructor
+  · simp only [SortedBy, lexLt_iff]; decide +kernel
+  · intro k
+    by_cases h1 : ['a'] = k
+    · subst h1; decide +kernel
+    · by_cases h2 : ['b'] = k
+      · subst h2; decide +kernel
+      · simp [L, List.filter, h1, h2]
+
+theorem C03_scoping_nonvacuous :
+    (execBody 200 [.int 3, Q "n", T ":=", .int 4, Q "gi", T ":=", TS "w", T "write$", T "newline$"] exSt).toOption.isSome
+      = true := by
+  decide +kernel
+
+theorem C03_scoping_iterate_nonvacuous :
+    (iterate 100 (.func [TS "s", Q "lab", T ":="]) (L ["k1", "k3"]) exSt).toOption.map
+      (fun s => ((dget s.entryVars "k1".toList).isSome, (dget s.entryVars "k2".toList).isSome, (dget s.entryVars "k3".toList).isSome))
+      = some (true, false, true) := by
+  decide +kernel
+
+theorem C03_scoping_commands_nonvacuous :
+    (runCommand 100 exInp ⟨"ITERATE".toList, [[T "presort"]]⟩ exSt).toOption.isSome = true ∧
+    (runCommand 100 exInp ⟨"MACRO".toList, [[T "jan"], [TS "January"]]⟩ exSt).toOption.isSome = true := by
+  decide +kernel
+
+/-- the names of the example `ENTRY` command are fresh in the initial table; a repeated name
+(up to case) is not -/
+theorem C03_declare_entry_nonvacuous :
+    Fresh (L ["title"] ++ ["crossref".toList] ++ L ["n"] ++ L ["lab"]) { vars := initVars } ∧
+    ¬ Fresh (L ["title", "Title"] ++ ["crossref".toList] ++ [] ++ []) { vars := initVars } ∧
+    ¬ Fresh (L ["skip$"] ++ ["crossref".toList] ++ [] ++ []) { vars := initVars } := by
+  unfold Fresh
+  decide +kernel
+
+theorem C03_declare_function_nonvacuous :
+    ({ vars := initVars } : St).vars.contains "main".toList = false ∧ exSt.vars.contains "MAIN".toList = true := by
+  decide +kernel
+
+theorem C03_declare_globals_nonvacuous :
+    upper "integers".toList = "INTEGERS".toList ∧ upper "Strings".toList = "STRINGS".toList ∧
+    (match (runCommand 1 exInp ⟨"INTEGERS".toList, [(L ["a", "gi"]).map .name]⟩ exSt).toOption.bind (·.vars.getItem "A".toList) with
+      | some (.gint 0) => true | _ => false) = true := by
+  decide +kernel
+
+theorem C03_declare_macro_nonvacuous :
+    ((runCommand 1 exInp ⟨"macro".toList, [[T "jan"], [TS "January"]]⟩ exSt).toOption.map (·.macros))
+      = some [("jan".toList, "January".toList)] := by
+  decide +kernel
+
+/-- the complete example style on the one-entry database: one emitted line; the text written
+after the last `newline$` is lost; one report (the missing entry) -/
+theorem C03_output_nonvacuous :
+    ((run 100 exProg exBib).toOption.map fun o => (o.bbl, o.reports.length)) = some ("T\n".toList, 1) := by
+  decide +kernel
+
+theorem C03_output_only_write_newline_nonvacuous :
+    ((runBuiltin 1 .swap { stk [S "a", S "b"] with buffer := L ["p"], lines := L ["l"] }).toOption.map
+      fun s => (s.lines, s.buffer)) = some (L ["l"], L ["p"]) := by
+  decide +kernel
 
 end Pybtex.Props
